@@ -106,6 +106,8 @@ type world struct {
 	outcome   map[uint64]string
 	pokeLabel string
 	silent    []int
+	monIdx    int            // events already seen by the attempt-count monitor
+	attempt   map[uint64]int // last observed attempt count per height (this instance)
 
 	d    *das.DASer
 	sub  *subStub
@@ -483,7 +485,7 @@ func (s *scen) replay() any {
 // ---------------------------------------------------------------- instance life-cycle
 
 func (s *scen) start() error {
-	w := &world{sc: s, at: map[int]*gate{}, fin: map[int]*gate{}, outcome: map[uint64]string{}}
+	w := &world{sc: s, at: map[int]*gate{}, fin: map[int]*gate{}, outcome: map[uint64]string{}, attempt: map[uint64]int{}}
 	w.cond = sync.NewCond(&w.mu)
 	w.ds = &logDS{Batching: s.base}
 	w.sub = &subStub{ch: make(chan *header.ExtendedHeader)}
@@ -602,36 +604,68 @@ func (s *scen) crash() error {
 // ---------------------------------------------------------------- stimuli
 
 func (s *scen) afterCoordEvents() {
-	// BackoffMonotone on the coordinator's own state as logged by the hook
+	// BackoffMonotone on the coordinator's own state as logged by the hook: within one instance the
+	// attempt count of a height that stays failed / in retry never decreases.
 	w := s.w
 	w.mu.Lock()
 	defer w.mu.Unlock()
-	for _, e := range w.events {
+	for ; w.monIdx < len(w.events); w.monIdx++ {
+		e := w.events[w.monIdx]
 		f, ok := e.kv["failed"].([][2]uint64)
 		if !ok {
 			continue
 		}
-		r := e.kv["inRetry"].([][2]uint64)
 		now := map[uint64]int{}
-		for _, p := range r {
+		for _, p := range e.kv["inRetry"].([][2]uint64) {
 			now[p[0]] = int(p[1])
 		}
 		for _, p := range f {
-			if int(p[1]) > now[p[0]] || now[p[0]] == 0 {
-				now[p[0]] = max(now[p[0]], int(p[1]))
-			}
+			now[p[0]] = int(p[1])
 		}
 		for h, c := range now {
-			if prev, ok := s.attempt[h]; ok && c < prev {
+			if prev, ok := w.attempt[h]; ok && c < prev {
 				sig := "C13/backoff/attempt-count-decreased"
 				if e.ev == "result" {
 					sig = "C13/backoff/count-reset-by-catchup-result"
 				}
-				s.rep.Violate(sig, fmt.Sprintf("attempt count of height %d went from %d to %d at event %s", h, prev, c, e.ev), s.replayLocked())
+				s.rep.Violate(sig, fmt.Sprintf("attempt count of height %d went from %d to %d at coordinator event %q", h, prev, c, e.ev), s.replay())
 			}
 		}
-		s.attempt = now
+		w.attempt = now
 	}
+}
+
+// liveJobs: spawned and not yet delivered (hook view). w.mu held.
+func (w *world) liveJobs() map[int]bool {
+	live := map[int]bool{}
+	for _, e := range w.events {
+		switch e.ev {
+		case "spawn":
+			live[e.kv["id"].(int)] = true
+		case "result":
+			delete(live, e.kv["id"].(int))
+		}
+	}
+	return live
+}
+
+// settle waits until every live worker goroutine sits at one of its gates or has left run().
+func (s *scen) settle() error {
+	w := s.w
+	return w.waitFor("all workers at a gate", func() bool {
+		gone := map[int]bool{}
+		for _, e := range w.events {
+			if e.ev == "silentExit" || e.ev == "dropped" {
+				gone[e.kv["id"].(int)] = true
+			}
+		}
+		for id := range w.liveJobs() {
+			if w.at[id] == nil && w.fin[id] == nil && !gone[id] {
+				return false
+			}
+		}
+		return true
+	})
 }
 
 func (s *scen) replayLocked() any { return s.replay() }
@@ -944,6 +978,9 @@ func (s *scen) randomStep(maxH int) step {
 		return step{Op: "start"}
 	}
 	w := s.w
+	if err := s.settle(); err != nil {
+		s.rep.Inconclusivef("%s: %v", s.def.Name, err)
+	}
 	w.mu.Lock()
 	var at, fin []int
 	for id := range w.at {
@@ -1016,6 +1053,10 @@ func (s *scen) drain() {
 		}
 	}
 	for round := 0; round < 400; round++ {
+		if err := s.settle(); err != nil {
+			s.rep.Inconclusivef("drain %s: %v", s.def.Name, err)
+			return
+		}
 		w.mu.Lock()
 		var at, fin []int
 		for id := range w.at {
